@@ -39,7 +39,7 @@ func (e *C05) ID() string      { return "C05" }
 func (e *C05) Level() string   { return "exploration" }
 func (e *C05) NeedsRace() bool { return true }
 func (e *C05) Rule() string {
-	return "each case is one round in a -race build: N in {2,8,16,64} goroutines are released by a barrier under GOMAXPROCS in {1,2,4,16,32}; each performs 3-10 seeded calls on its own reader/image drawn from: every decode/scan/parse/sniff entry point on sample and generated files of every container (also truncated and structure-mutated ones: error paths), TIFFs carrying fresh OffsetTime strings (distinct offsets, and equal offsets spelled differently such as +00:00/-00:00, +05:00/+04:60) so that several calls miss the zone cache at once (the cache and all pools are reset before the round; in a quarter of the rounds nearly every call carries three offsets out of 1800, so that the cache passes its capacity of 256 several times within the round), the four perceptual hashes, NewAHash and EncodeBlurHashFast on 64x64/256x256 images of four kinds. Readers yield (runtime.Gosched or a microsecond sleep) at seeded Read calls, the natural suspension points of this library. A third of the cases also start a cold-start burst: a fresh process of the same race build in which 8 goroutines, released together, each make the same kind of call (17 kinds: gray conversions, hashes, kernels, blurhash, decode, parse, XMP, tag names, sniffing, CR3 preview) on an input of their own as the very first library calls of that process, then repeat them sequentially - lazily initialised state meets concurrency in every burst. Oracles: the Go race detector (reports parsed from its log, de-duplicated by the innermost imagemeta frame pair; a report with no imagemeta frame is the harness's own and makes the run inconclusive); every call's canonical observation must equal the observation of the same call run alone on pristine state (computed sequentially in the same binary, after the round, so that nothing is warmed up before its first concurrent use); a panic is a crash; a round in which no call completes for 120 s while the process is CPU-idle is a deadlock. SetLogger is never called while calls are in flight (configuration is outside the property); a quarter of the rounds set trace-level loggers with a discarding writer before the round starts, so that the formatting code behind the log statements also runs concurrently. Non-trivial: a round with >= 2 calls overlapping in time; distinct = distinct overlap signatures (multiset of call kinds in flight when a call starts, from one atomic event sequence at the client boundary)."
+	return "each case is one round in a -race build: N in {2,8,16,64} goroutines are released by a barrier under GOMAXPROCS in {1,2,4,16,32}; each performs 3-10 seeded calls on its own reader/image drawn from: every decode/scan/parse/sniff entry point on sample and generated files of every container (also truncated and structure-mutated ones: error paths), TIFFs carrying fresh OffsetTime strings (distinct offsets, and equal offsets spelled differently such as +00:00/-00:00, +05:00/+04:60) so that several calls miss the zone cache at once (the cache and all pools are reset before the round; in a quarter of the rounds nearly every call carries three offsets out of 1800, so that the cache passes its capacity of 256 several times within the round; in an eighth of the rounds the k-th calls of all goroutines carry one offset in two spellings, so that the cold misses for an offset come together), the four perceptual hashes, NewAHash and EncodeBlurHashFast on 64x64/256x256 images of four kinds. Readers yield (runtime.Gosched or a microsecond sleep) at seeded Read calls, the natural suspension points of this library. A third of the cases also start a cold-start burst: a fresh process of the same race build in which 8 goroutines, released together, each make the same kind of call (18 kinds: gray conversions, hashes, kernels, blurhash, decode, parse, XMP, tag names, sniffing, CR3 preview, TIFFs whose OffsetTime strings spell one offset in two ways) on an input of their own as the very first library calls of that process, then repeat them sequentially - lazily initialised state meets concurrency in every burst. Oracles: the Go race detector (reports parsed from its log, de-duplicated by the innermost imagemeta frame pair; a report with no imagemeta frame is the harness's own and makes the run inconclusive); every call's canonical observation must equal the observation of the same call run alone on pristine state (computed sequentially in the same binary, after the round, so that nothing is warmed up before its first concurrent use); a panic is a crash; a round in which no call completes for 120 s while the process is CPU-idle is a deadlock. SetLogger is never called while calls are in flight (configuration is outside the property); a quarter of the rounds set trace-level loggers with a discarding writer before the round starts, so that the formatting code behind the log statements also runs concurrently. Non-trivial: a round with >= 2 calls overlapping in time; distinct = distinct overlap signatures (multiset of call kinds in flight when a call starts, from one atomic event sequence at the client boundary)."
 }
 func (e *C05) Assumptions() []string {
 	return []string{
@@ -284,6 +284,13 @@ func (e *C05) Run(c *core.Ctx, idx int) {
 	n := c05N[idx%len(c05N)]
 	procs := c05Procs[(idx/len(c05N))%len(c05Procs)]
 	perG := r.Range(3, 10)
+	if idx%8 == 5 {
+		// zone-conflict rounds (below): many goroutines, real parallelism
+		n, perG = 32, 10
+		if procs < 4 {
+			procs = 8
+		}
+	}
 	calls := make([][]*c05call, n)
 	total := 0
 	for g := range calls {
@@ -291,6 +298,45 @@ func (e *C05) Run(c *core.Ctx, idx int) {
 			calls[g] = append(calls[g], e.mkCall(r, idx))
 			total++
 		}
+	}
+	if idx%8 == 5 {
+		// zone-conflict rounds: the k-th call of every goroutine decodes a TIFF whose OffsetTime
+		// strings spell the same offset - one spelling in the even goroutines ("+05:00"), the other
+		// in the odd ones ("+04:60") - so that the cold misses for one offset come together; each
+		// call must report the spelling of its own file, whoever creates the cached zone
+		var ent Entry
+		for _, x := range e.pop.entries {
+			if x.Name == "DecodeTiff" {
+				ent = x
+			}
+		}
+		offs := r.Perm(52) // 13 hours x 4 quarter hours; three offsets per call, every offset once per round
+		files := map[[2]int][]byte{}
+		for g := range calls {
+			for k := range calls[g] {
+				var zs [3]string
+				for j := range zs {
+					o := offs[(3*k+j)%52]
+					h, m := 1+o/4, 15*(o%4)
+					zs[j] = fmt.Sprintf("+%02d:%02d", h, m)
+					if g%2 == 1 {
+						zs[j] = fmt.Sprintf("+%02d:%02d", h-1, m+60) // the same offset, spelt differently
+					}
+				}
+				sp := zs[0]
+				fk := [2]int{k, g % 2}
+				if files[fk] == nil {
+					files[fk] = c05ZoneFile(core.NewRng(c.Seed, uint64(idx), uint64(k), uint64(g%2)), zs)
+				}
+				data := files[fk]
+				calls[g][k] = &c05call{key: fmt.Sprintf("DecodeTiff|zoneconflict#%d-%d-%d", idx, k, g%2), class: "zone:DecodeTiff", zone: sp, run: func(y func()) string {
+					rs := mon.NewRS(data)
+					rs.Yield = y
+					return ent.Run(rs)
+				}}
+			}
+		}
+		c.Rec.Count("zone_conflict_rounds", 1)
 	}
 	// a quarter of the rounds run with the loggers configured beforehand (trace level, a
 	// goroutine-safe discarding writer): configuration is not concurrent, the logging the decoders
@@ -353,6 +399,13 @@ func (e *C05) Run(c *core.Ctx, idx int) {
 	for g := range results {
 		results[g] = make([]c05res, len(calls[g]))
 	}
+	var kbar []sync.WaitGroup
+	if idx%8 == 5 {
+		kbar = make([]sync.WaitGroup, perG)
+		for k := range kbar {
+			kbar[k].Add(n)
+		}
+	}
 	c.SetPhase(fmt.Sprintf("round=%d goroutines=%d gomaxprocs=%d calls=%d", idx, n, procs, total))
 	for g := 0; g < n; g++ {
 		wg.Add(1)
@@ -369,6 +422,11 @@ func (e *C05) Run(c *core.Ctx, idx int) {
 			}
 			<-start
 			for k, cl := range calls[g] {
+				if kbar != nil {
+					// zone-conflict round: the k-th calls of all goroutines start together
+					kbar[k].Done()
+					kbar[k].Wait()
+				}
 				var got string
 				tr.start(cl)
 				pk, key, text := core.Guard(func() { got = cl.run(yield) })
